@@ -3,8 +3,8 @@
    Machine (Model/SafeKV.v): any number of threads over one RWMutex (writer flag + reader count) and one map; a step executes
    one event (Acq/Rel R|W, Rd/Wr Hdr|Entries, CallUser) of one thread; how often a repeated part runs and what a write does
    are chosen by the schedule entry, so "for all schedules" covers every data-dependent control flow and every effect. *)
-From Coq Require Import List ZArith Bool.
-From V Require Import Lib.Enc Gen.SafeKVSkel Model.SafeKV Model.SafeKVCalls Run.C12 Proofs.SafeKVCalls Proofs.SafeKVInv Proofs.SafeKVConc Proofs.SafeKVSeq Proofs.SafeKVSkelOk Proofs.SafeKVExec Proofs.SafeKVRun.
+From Coq Require Import List ZArith Bool Permutation.
+From V Require Import Lib.Enc Gen.SafeKVSkel Model.SafeKV Model.SafeKVCalls Run.C12 Proofs.SafeKVCalls Proofs.SafeKVInv Proofs.SafeKVConc Proofs.SafeKVSeq Proofs.SafeKVSkelOk Proofs.SafeKVExec Proofs.SafeKVRun Proofs.SafeKVLin.
 Import ListNotations.
 
 (* the skeletons extracted from the current mapz/safekv.go and mapz/iter.go obey the lock discipline (all of them, also
@@ -82,3 +82,10 @@ Print Assumptions c12_calls_atomic.
 Theorem c12_calls_race_free : forall n m0 sched, ~ race (proj (crun (cinit n m0) sched)).
 Proof. exact calls_race_free. Qed.
 Print Assumptions c12_calls_race_free.
+
+(* run mode 1: the judge of observed histories answers 1 exactly when the history has a linearisation — an ordering of all its
+   calls in which nobody stands before a call that had already returned when he was invoked, and every call returns what the
+   specification returns on the map its predecessors left (legal) *)
+Theorem c12_history_judge_iff : forall hist m0, linearizable hist m0 = true <-> exists l, Permutation l hist /\ legal l m0.
+Proof. exact linearizable_iff. Qed.
+Print Assumptions c12_history_judge_iff.
